@@ -330,6 +330,14 @@ def s14_free(decls):
             return False
         return all(all_const(x) for x in e[1:] if isinstance(x, tuple))
 
+    def lit_const(e):
+        k = e[0]
+        if k in ("int", "lit"):
+            return True
+        if k in ("var", "sel"):
+            return k == "var" and kinds[e[1]] == "int"
+        return all(lit_const(x) for x in e[1:] if isinstance(x, tuple))
+
     def ok(e):
         if not isinstance(e, tuple):
             return True
@@ -337,6 +345,10 @@ def s14_free(decls):
             return False
         if e[0] == "cond" and all_const(e[1]):
             # a constant condition folds `c : v` to an implicitly typed constant (S14 family)
+            return False
+        if e[0] == "cond" and e[1][0] in ("and", "or") and e[2][0] not in ("int", "lit", "var") and lit_const(e[2]):
+            # known finding S31: a multi-condition `c : v` whose value is a compound constant expression over
+            # typed literals copies the (absent) input count instead of emitting the folded constant
             return False
         return all(ok(x) for x in e[1:])
 
